@@ -239,9 +239,9 @@ struct WatchObj {
 enum Obj {
     Chan(ChanObj),
     Watch(WatchObj),
-    Sem(tk::sync::Semaphore),
-    Mutex(tk::sync::Mutex<()>),
-    RwLock(tk::sync::RwLock<()>),
+    Sem(Arc<tk::sync::Semaphore>),
+    Mutex(Arc<tk::sync::Mutex<()>>),
+    RwLock(Arc<tk::sync::RwLock<()>>),
     Notify(tk::sync::Notify),
     Oneshot(OsObj),
 }
@@ -326,11 +326,11 @@ fn make_objs(specs: &[String]) -> Result<Objs, String> {
                 next += 3;
             }
             b's' => {
-                objs.push(Obj::Sem(tk::sync::Semaphore::new(w[1..].parse().map_err(|_| bad())?)));
+                objs.push(Obj::Sem(Arc::new(tk::sync::Semaphore::new(w[1..].parse().map_err(|_| bad())?))));
                 next += 1;
             }
             b'm' => {
-                objs.push(Obj::Mutex(tk::sync::Mutex::new(())));
+                objs.push(Obj::Mutex(Arc::new(tk::sync::Mutex::new(()))));
                 next += 1;
             }
             b'w' => {
@@ -339,7 +339,7 @@ fn make_objs(specs: &[String]) -> Result<Objs, String> {
                 } else {
                     tk::sync::RwLock::with_max_readers((), w[1..].parse().map_err(|_| bad())?)
                 };
-                objs.push(Obj::RwLock(l));
+                objs.push(Obj::RwLock(Arc::new(l)));
                 next += 1;
             }
             b'n' => {
@@ -419,11 +419,16 @@ impl<F: Future> Future for SendFut<F> {
     }
 }
 
+/// Bodies with an odd index go through the `_owned` variants of every acquisition (same operations on an Arc).
 enum Held<'a> {
     Permit(tk::sync::SemaphorePermit<'a>),
     MG(tk::sync::MutexGuard<'a, ()>),
     RG(tk::sync::RwLockReadGuard<'a, ()>),
     WG(tk::sync::RwLockWriteGuard<'a, ()>, u64),
+    OPermit(tk::sync::OwnedSemaphorePermit),
+    OMG(tk::sync::OwnedMutexGuard<()>),
+    ORG(tk::sync::OwnedRwLockReadGuard<()>),
+    OWG(tk::sync::OwnedRwLockWriteGuard<()>, u64),
 }
 
 /// What a body holds; anything left when the body is abandoned (deadlock, stopped execution, panic) is leaked
@@ -473,6 +478,7 @@ async fn run_ops_inner(p: Arc<Prog>, objs: Arc<Objs>, b: usize, is_task: bool) -
     let mut nf_holder = NotifiedList(Vec::new());
     let notifieds = &mut nf_holder.0;
     let ops = p.bodies.get(b).cloned().unwrap_or_default();
+    let owned = b % 2 == 1;
     macro_rules! misuse {
         () => {{
             log_op(98, &[]);
@@ -610,10 +616,15 @@ async fn run_ops_inner(p: Arc<Prog>, objs: Arc<Objs>, b: usize, is_task: bool) -
             }
             Op::Acq(s, n) => {
                 let sm = obj!(s, Obj::Sem);
-                let r = if is_task { sm.acquire_many(n).await } else { shuttle::future::block_on(sm.acquire_many(n)) };
+                let r = if owned {
+                    let f = sm.clone().acquire_many_owned(n);
+                    (if is_task { f.await } else { shuttle::future::block_on(f) }).map(Held::OPermit)
+                } else {
+                    (if is_task { sm.acquire_many(n).await } else { shuttle::future::block_on(sm.acquire_many(n)) }).map(Held::Permit)
+                };
                 match r {
                     Ok(pm) => {
-                        held.push((s, n as u64, Held::Permit(pm)));
+                        held.push((s, n as u64, pm));
                         log_op(70, &[1]);
                     }
                     Err(_) => log_op(70, &[0]),
@@ -621,9 +632,10 @@ async fn run_ops_inner(p: Arc<Prog>, objs: Arc<Objs>, b: usize, is_task: bool) -
             }
             Op::TryAcq(s, n) => {
                 let sm = obj!(s, Obj::Sem);
-                let code = match sm.try_acquire_many(n) {
+                let r = if owned { sm.clone().try_acquire_many_owned(n).map(Held::OPermit) } else { sm.try_acquire_many(n).map(Held::Permit) };
+                let code = match r {
                     Ok(pm) => {
-                        held.push((s, n as u64, Held::Permit(pm)));
+                        held.push((s, n as u64, pm));
                         0
                     }
                     Err(tk::sync::TryAcquireError::NoPermits) => 1,
@@ -643,10 +655,12 @@ async fn run_ops_inner(p: Arc<Prog>, objs: Arc<Objs>, b: usize, is_task: bool) -
                 log_op(73, &[o.base[s] as u64, n]);
             }
             Op::Forget(s) => {
-                let Some(idx) = held.iter().rposition(|h| h.0 == s && matches!(h.2, Held::Permit(_))) else { misuse!() };
+                let Some(idx) = held.iter().rposition(|h| h.0 == s && matches!(h.2, Held::Permit(_) | Held::OPermit(_))) else { misuse!() };
                 let (_, n, h) = held.remove(idx);
-                if let Held::Permit(pm) = h {
-                    pm.forget();
+                match h {
+                    Held::Permit(pm) => pm.forget(),
+                    Held::OPermit(pm) => pm.forget(),
+                    _ => {}
                 }
                 log_op(74, &[o.base[s] as u64, n]);
             }
@@ -661,15 +675,21 @@ async fn run_ops_inner(p: Arc<Prog>, objs: Arc<Objs>, b: usize, is_task: bool) -
             }
             Op::Lock(m) => {
                 let mx = obj!(m, Obj::Mutex);
-                let g = if is_task { mx.lock().await } else { mx.blocking_lock() };
-                held.push((m, 1, Held::MG(g)));
+                let g = if owned {
+                    let f = mx.clone().lock_owned();
+                    Held::OMG(if is_task { f.await } else { shuttle::future::block_on(f) })
+                } else {
+                    Held::MG(if is_task { mx.lock().await } else { mx.blocking_lock() })
+                };
+                held.push((m, 1, g));
                 log_op(77, &[1]);
             }
             Op::TryLock(m) => {
                 let mx = obj!(m, Obj::Mutex);
-                let code = match mx.try_lock() {
+                let r = if owned { mx.clone().try_lock_owned().map(Held::OMG) } else { mx.try_lock().map(Held::MG) };
+                let code = match r {
                     Ok(g) => {
-                        held.push((m, 1, Held::MG(g)));
+                        held.push((m, 1, g));
                         0
                     }
                     Err(_) => 1,
@@ -678,22 +698,33 @@ async fn run_ops_inner(p: Arc<Prog>, objs: Arc<Objs>, b: usize, is_task: bool) -
             }
             Op::Read(w) => {
                 let l = obj!(w, Obj::RwLock);
-                let g = if is_task { l.read().await } else { l.blocking_read() };
-                held.push((w, 1, Held::RG(g)));
+                let g = if owned {
+                    let f = l.clone().read_owned();
+                    Held::ORG(if is_task { f.await } else { shuttle::future::block_on(f) })
+                } else {
+                    Held::RG(if is_task { l.read().await } else { l.blocking_read() })
+                };
+                held.push((w, 1, g));
                 log_op(79, &[1]);
             }
             Op::Write(w) => {
                 let l = obj!(w, Obj::RwLock);
-                let g = if is_task { l.write().await } else { l.blocking_write() };
                 let n = rw_max(&p.obj_specs[w]);
-                held.push((w, n, Held::WG(g, n)));
+                let g = if owned {
+                    let f = l.clone().write_owned();
+                    Held::OWG(if is_task { f.await } else { shuttle::future::block_on(f) }, n)
+                } else {
+                    Held::WG(if is_task { l.write().await } else { l.blocking_write() }, n)
+                };
+                held.push((w, n, g));
                 log_op(86, &[1]);
             }
             Op::TryRead(w) => {
                 let l = obj!(w, Obj::RwLock);
-                let code = match l.try_read() {
+                let r = if owned { l.clone().try_read_owned().map(Held::ORG) } else { l.try_read().map(Held::RG) };
+                let code = match r {
                     Ok(g) => {
-                        held.push((w, 1, Held::RG(g)));
+                        held.push((w, 1, g));
                         0
                     }
                     Err(_) => 1,
@@ -703,9 +734,10 @@ async fn run_ops_inner(p: Arc<Prog>, objs: Arc<Objs>, b: usize, is_task: bool) -
             Op::TryWrite(w) => {
                 let l = obj!(w, Obj::RwLock);
                 let n = rw_max(&p.obj_specs[w]);
-                let code = match l.try_write() {
+                let r = if owned { l.clone().try_write_owned().map(|g| Held::OWG(g, n)) } else { l.try_write().map(|g| Held::WG(g, n)) };
+                let code = match r {
                     Ok(g) => {
-                        held.push((w, n, Held::WG(g, n)));
+                        held.push((w, n, g));
                         0
                     }
                     Err(_) => 1,
@@ -894,12 +926,14 @@ async fn run_ops_inner(p: Arc<Prog>, objs: Arc<Objs>, b: usize, is_task: bool) -
             Op::Downgrade(w) => {
                 let n = rw_max(&p.obj_specs[w]);
                 let Some(idx) = held.iter().rposition(|h| h.0 == w) else { misuse!() };
-                if !matches!(held[idx].2, Held::WG(..)) || n <= 1 {
+                if !matches!(held[idx].2, Held::WG(..) | Held::OWG(..)) || n <= 1 {
                     misuse!()
                 }
                 let (_, _, h) = held.remove(idx);
-                if let Held::WG(g, _) = h {
-                    held.push((w, 1, Held::RG(g.downgrade())));
+                match h {
+                    Held::WG(g, _) => held.push((w, 1, Held::RG(g.downgrade()))),
+                    Held::OWG(g, _) => held.push((w, 1, Held::ORG(g.downgrade()))),
+                    _ => {}
                 }
                 log_op(113, &[]);
             }
@@ -911,10 +945,18 @@ async fn run_ops_inner(p: Arc<Prog>, objs: Arc<Objs>, b: usize, is_task: bool) -
                 let Some(i2) = held[..i1].iter().rposition(|h| h.0 == s) else { misuse!() };
                 let (_, n1, h1) = held.remove(i1);
                 let (_, n2, h2) = held.remove(i2);
-                if let (Held::Permit(p1), Held::Permit(mut p2)) = (h1, h2) {
-                    p2.merge(p1);
-                    assert_eq!(p2.num_permits() as u64, n1 + n2, "vharness: num_permits after merge");
-                    held.push((s, n1 + n2, Held::Permit(p2)));
+                match (h1, h2) {
+                    (Held::Permit(p1), Held::Permit(mut p2)) => {
+                        p2.merge(p1);
+                        assert_eq!(p2.num_permits() as u64, n1 + n2, "vharness: num_permits after merge");
+                        held.push((s, n1 + n2, Held::Permit(p2)));
+                    }
+                    (Held::OPermit(p1), Held::OPermit(mut p2)) => {
+                        p2.merge(p1);
+                        assert_eq!(p2.num_permits() as u64, n1 + n2, "vharness: num_permits after merge");
+                        held.push((s, n1 + n2, Held::OPermit(p2)));
+                    }
+                    _ => panic!("vharness: permits of two kinds in one body"),
                 }
                 log_op(114, &[n1 + n2]);
             }
@@ -924,16 +966,26 @@ async fn run_ops_inner(p: Arc<Prog>, objs: Arc<Objs>, b: usize, is_task: bool) -
                 }
                 let Some(idx) = held.iter().rposition(|h| h.0 == s) else { misuse!() };
                 let mut newp = None;
-                if let (_, k, Held::Permit(pm)) = &mut held[idx] {
-                    if let Some(p2) = pm.split(n) {
-                        *k -= n as u64;
-                        assert_eq!(pm.num_permits() as u64, *k, "vharness: num_permits after split");
-                        newp = Some(p2);
+                match &mut held[idx] {
+                    (_, k, Held::Permit(pm)) => {
+                        if let Some(p2) = pm.split(n) {
+                            *k -= n as u64;
+                            assert_eq!(pm.num_permits() as u64, *k, "vharness: num_permits after split");
+                            newp = Some(Held::Permit(p2));
+                        }
                     }
+                    (_, k, Held::OPermit(pm)) => {
+                        if let Some(p2) = pm.split(n) {
+                            *k -= n as u64;
+                            assert_eq!(pm.num_permits() as u64, *k, "vharness: num_permits after split");
+                            newp = Some(Held::OPermit(p2));
+                        }
+                    }
+                    _ => {}
                 }
                 match newp {
                     Some(p2) => {
-                        held.push((s, n as u64, Held::Permit(p2)));
+                        held.push((s, n as u64, p2));
                         log_op(115, &[1]);
                     }
                     None => log_op(115, &[0]),
